@@ -97,12 +97,30 @@ def contract_of(dealer_i, hist):
 
 
 def gen_board(rng, k, fancy=True, kind=None, id_pool=None):
+    """kind: None | 'passout' | 'short' | 'zero' (declarer's side wins NO trick: 1NT, the opening leader holds a whole
+    suit) | 'all13' (declarer wins all 13: a grand slam, declarer holds every trump)"""
     deck = list(range(52))
     rng.shuffle(deck)
     deal = [sorted(deck[i * 13:(i + 1) * 13]) for i in range(4)]
     dealer_i = rng.randrange(4)
     vul = rng.choice(VULS)
-    hist = gen_auction(rng, dealer_i, kind)
+    if kind in ('zero', 'all13'):
+        su = rng.randrange(4)
+        long_suit = list(range(su * 13, su * 13 + 13))
+        rest = [c for c in range(52) if c // 13 != su]
+        rng.shuffle(rest)
+        holder = (dealer_i + 1) % 4 if kind == 'zero' else dealer_i
+        others = [i for i in range(4) if i != holder]
+        deal = [None] * 4
+        deal[holder] = long_suit
+        for j, i in enumerate(others):
+            deal[i] = sorted(rest[j * 13:(j + 1) * 13])
+        first = 4 if kind == 'zero' else 30 + su                # 1NT by the dealer / 7 of the long suit by the dealer
+        hist = [first] + ([X] if rng.random() < 0.4 else []) + [PASS] * 3
+        if len(hist) == 5 and rng.random() < 0.5:
+            hist = [first, X, XX, PASS, PASS, PASS]
+    else:
+        hist = gen_auction(rng, dealer_i, kind)
     calls = [(c, call_text(rng, SEATS[(dealer_i + j) % 4], c, fancy)) for j, c in enumerate(hist)]
     con = contract_of(dealer_i, hist)
     plays = []
@@ -129,7 +147,7 @@ def gen_board(rng, k, fancy=True, kind=None, id_pool=None):
     if rng.random() < 0.3:
         dda = {p: {s: rng.randrange(0, 14) for s in ['C', 'D', 'H', 'S', 'NT']} for p in SEATS}
     return {'id': bid_id, 'dealer': SEATS[dealer_i], 'vul': vul, 'deal': deal, 'dda': dda,
-            'calls': calls, 'plays': plays}
+            'calls': calls, 'plays': plays, 'kind': kind}
 
 
 def gen_scenario(rng, n_boards, fancy=True, kinds=None):
